@@ -429,9 +429,9 @@ def gen_c11(rng, tier):
             elif r < 0.5:
                 ops += ["P:a:4.11:%s:-" % jstr(rng.choice(["secret", "x"])), "G:a:4.11", "A:a", "CB"]
             elif r < 0.65:
-                ops += ["P:b:4.13:-:1", "L:4.13:%s" % jstr("v%d" % rng.randrange(100)), "W", "E:b"]
+                ops += ["P:b:4.13:-:%s" % rng.choice(["1", "1", "n1", "s1", "st"]), "L:4.13:%s" % jstr("v%d" % rng.randrange(100)), "W", "E:b"]
             elif r < 0.8:
-                ops += ["P:b:4.12:-:1", "L:4.12:%s" % sc.num(rng.randrange(50)), "W", "E:b"]
+                ops += ["P:b:4.12:-:%s" % rng.choice(["1", "n1", "s1", "0"]), "L:4.12:%s" % sc.num(rng.randrange(50)), "W", "E:b"]
             elif r < 0.9:
                 ops += ["P:b:1.2:-:1", "P:a:1.2:true:-", "W", "E:b", "CB"]
             else:
@@ -513,11 +513,11 @@ def gen_c10(rng, tier):
                 ops.append("P:%s:%s:-:%d" % (rng.choice(live), rng.choice(chars), rng.randrange(2)))
             elif r < 0.55:
                 ch = rng.choice(chars)
-                v = rng.choice(["true", "false"]) if ch in ("2.9", "4.9") else (sc.num(rng.choice([10, 20, 30.5])) if ch == "3.12" else sc.num(rng.choice([0, 1, 2])))
+                v = rng.choice(["true", "false"]) if ch in ("2.9", "4.9") else (sc.num(rng.choice([10, 20, 30.5, 38, 5, 50, 100, 9.5])) if ch == "3.12" else sc.num(rng.choice([0, 1, 2])))
                 ops.append("L:%s:%s" % (ch, v))
             elif r < 0.8 and live:
                 ch = rng.choice(chars)
-                v = rng.choice(["true", "false"]) if ch in ("2.9", "4.9") else (sc.num(rng.choice([10, 20, 30.5])) if ch == "3.12" else sc.num(rng.choice([0, 1, 2])))
+                v = rng.choice(["true", "false"]) if ch in ("2.9", "4.9") else (sc.num(rng.choice([10, 20, 30.5, 38, 5, 50, 100, 9.5])) if ch == "3.12" else sc.num(rng.choice([0, 1, 2])))
                 ops.append("P:%s:%s:%s:-" % (rng.choice(live), ch, v))
             elif r < 0.9 and len(live) > 1:
                 c = rng.choice(live)
@@ -534,6 +534,19 @@ def gen_c10(rng, tier):
         ops.append("W")
         ops += ["E:" + c for c in sorted(alive)]
         mk(cases, "events", ops)
+    for i in range(6 if tier == "quick" else 60):
+        # a value already at its bound, then writes beyond the bound (clamped to the same value): no event is due
+        hi = rng.random() < 0.5
+        at, beyond = (38, [50, 100, 38.5]) if hi else (10, [5, 0, 9.5])
+        ops = ["N:p", "S:p:c0:ok", "N:c0", "V:c0:c0:ok", "N:c1", "V:c1:c0:ok", "P:c0:3.12:-:1", "P:c1:3.12:-:1",
+               "L:3.12:%s" % sc.num(at), "W", "E:c0", "E:c1"]
+        for b in beyond:
+            if rng.random() < 0.5:
+                ops += ["L:3.12:%s" % sc.num(b)]
+            else:
+                ops += ["P:c1:3.12:%s:-" % sc.num(b)]
+            ops += ["W", "E:c0", "E:c1"]
+        mk(cases, "atbound", ops)
     return cases
 
 
@@ -549,6 +562,15 @@ def oracle_c10(c, obs):
 
     def change(cid, vt, origin):
         want = "num:%r" % float(vt.split("@")[0]) if "@" in vt else sc.canon_val(vt)
+        if want.startswith("num:"):
+            # the library clamps to the declared bounds before it compares with the stored value
+            x = float(want[4:])
+            for b, f in (("min", max), ("max", min)):
+                bt = rows[cid][b]
+                if bt != "-":
+                    bv = float(sc.canon_model_val(bt)[4:])
+                    x = f(x, bv)
+            want = "num:%r" % x
         if cur.get(cid) == want:
             return
         cur[cid] = want
